@@ -279,6 +279,8 @@ def rounded_capacity_compare(ctx, rule, orientation=True):
 
 
 def run(ctx):
+    from .configtime import refusals_not_rounded_for_display as _gate_digits
+    _gate_digits(ctx, 'C03.R1', ('Container._self_add', 'Container._transfer', 'Container.fill_to', 'Container.dilute', 'Container.create_solution', 'Container.create_solution_from'))
     model = ctx.model
     from . import unitspec as _us
     _us.api_verified(ctx, 'C03.R2')
@@ -417,6 +419,10 @@ def run(ctx):
     for o in kept_:
         o.rule = 'C03.R3'
     ctx.obs[before_:] = kept_
+    # diluting a substance with itself, or a stock that lacks the solute, is refused (by value: an equal substance read
+    # back from a container is the same substance)
+    from .c12 import feasibility_gates
+    feasibility_gates(ctx, 'C03.R4')
     # ------------------------------------------------------------------ R5 refusal type
     n_ref = 0
     for cname in ('Container', 'Plate'):
